@@ -669,6 +669,55 @@ def rule_r6(chk, prog):
               loc=m.loc(f), nontrivial=True)
 
 
+def rule_r17(chk, prog):
+    chk.rule('C02.R17', 'the passes run in the order get_passes() lists '
+             'them, the complete pass last: get_pass(passes, i) hands out '
+             'element i (the index it is given, unmodified), and reduce() '
+             'asks for i = 0 .. len(passes) - 1 in that order')
+    m = prog.mod('strategy_hierarchical')
+    f = m.func('get_pass')
+    ps = params_of(f)
+    n = 0
+    for x in ast.walk(f):
+        if isinstance(x, ast.Subscript) and isinstance(
+                x.value, ast.Name) and x.value.id == ps[0]:
+            n += 1
+            ok = isinstance(x.slice, ast.Name) and x.slice.id == ps[1]
+            chk.check('C02.R17', 'strategy_hierarchical.get_pass', x, ok,
+                      f'"{unparse(x)}" is not "{ps[0]}[{ps[1]}]": the '
+                      'passes are handed out in another order (with an '
+                      'offset of -1 the complete last pass runs first and '
+                      'the sweep that ends the run lacks the late '
+                      'mutators) - the final sweep is not a sweep of every '
+                      'enabled mutator', loc=m.loc(x), nontrivial=True)
+    chk.floor('C02.R17', 'subscripts of the pass list in get_pass', n, 1)
+    r = m.func('reduce')
+    nl = 0
+    for lp in ast.walk(r):
+        if isinstance(lp, ast.For) and any(
+                isinstance(c, ast.Call) and (call_name(c) or '') ==
+                'get_pass' for c in ast.walk(lp)):
+            calls = [c for c in ast.walk(lp) if isinstance(c, ast.Call)
+                     and (call_name(c) or '') == 'get_pass']
+            inner = [l2 for l2 in ast.walk(lp) if l2 is not lp
+                     and isinstance(l2, ast.For) and any(
+                         c in list(ast.walk(l2)) for c in calls)]
+            if inner:
+                continue
+            nl += 1
+            it = unparse(lp.iter).replace(' ', '')
+            tgt = lp.target.id if isinstance(lp.target, ast.Name) else None
+            ok = it in ('range(len(passes))', 'range(0,len(passes))') and \
+                all(len(c.args) == 2 and isinstance(c.args[1], ast.Name)
+                    and c.args[1].id == tgt for c in calls)
+            chk.check('C02.R17', 'strategy_hierarchical.reduce',
+                      f'for {unparse(lp.target)} in {unparse(lp.iter)}', ok,
+                      'the loop over the passes does not ask get_pass for '
+                      'the indices 0 .. len(passes)-1 in order',
+                      loc=m.loc(lp), nontrivial=True)
+    chk.floor('C02.R17', 'loops over the passes', nl, 1)
+
+
 def run(tier):
     prog = Program()
     chk = Check(
@@ -780,6 +829,17 @@ def run(tier):
                      'the instance a pass restricted to one kind of command (get_initialized_mutator) is the instance of every later pass: the final sweep does not offer the proposals of the unrestricted mutator')
 
     chk.guard(_memo_rule, chk, prog)
+    chk.guard(rule_r17, chk, prog)
+    # identities are unique, also in long runs and big inputs (shared with
+    # C12.R4 / C12.R11)
+    from . import c12 as _c12
+    sub12 = Check('C12', 'other', tier, [], [])
+    chk.guard(_c12.rule_r4, sub12, prog)
+    chk.guard(_c12.rule_r11, sub12, prog)
+    chk.adopt('C02.R18', 'a proposal reaches the node it was made for: ids '
+              'come from one shared counter of the width the pickle format '
+              'carries, never 0, never handed out twice (shared with '
+              'C12.R4 and C12.R11)', sub12)
     extra = None
     if tier == 'thorough':
         from .. import selftest
